@@ -122,6 +122,8 @@ def apply_ops(obj, ops, laser=None):
             elif op[0] == "attach":
                 if laser is not None:
                     laser.laser_profile = obj
+            elif op[0] == "bad":
+                pass
             else:
                 setattr(obj, ATTR.get(op[1], op[1]), op[2])
         except (ValueError, AttributeError, ZeroDivisionError):
@@ -260,7 +262,7 @@ def search_profile(Lmod, case, obs, obj, laser, c, rng, heavy, stats):
         stats["fresh_vs_mutated"] += 1
         if k is not None:
             op = minimise_history(Lmod, case, c, rng, k)
-            setter = (ATTR.get(op[1], op[1]) if op[0] == "set" else {"pol": "set_polarization", "attach": "re-attach"}[op[0]]) if op else "history"
+            setter = (ATTR.get(op[1], op[1]) if op[0] == "set" else {"pol": "set_polarization", "attach": "re-attach", "bad": "rejected-type"}[op[0]]) if op else "history"
             fails.append({"key": "c18:stale:%s.%s:%s" % (cls, setter, k),
                           "claim": "%s after %s differs from a freshly constructed object with the reported parameters in: %s"
                                    % (cls, ("`obj.%s = %r`" % (setter, op[2]) if op and op[0] == "set" else "the setter history"), k),
@@ -367,7 +369,7 @@ def search_spectrum(Lmod, case, obs, obj, rng, stats):
     for k in a:
         if a[k] != b[k]:
             op = None
-            for o in case["ops"]:
+            for o in [o_ for o_ in case["ops"] if o_[0] != "bad"]:
                 try:
                     o1 = build_spectrum(Lmod, kind, case["args"]["min"], case["args"]["max"], case["args"]["bins"], case["args"]["mean"], case["args"]["std"])
                     setattr(o1, {"min": "min_wavelength", "max": "max_wavelength", "bins": "bins", "mean": "mean", "std": "stddev"}[o[0]], o[1])
